@@ -79,6 +79,38 @@ def check(an, rep, tier):
             'orthogonalisation, the first core and the remaining sweep must '
             'match (l2r: 0, Z[0], Z[1:]; r2l: d-1, Z[-1], reversed Z[:-1])',
             line=fn.node.lineno, file=mod.path)
+    # --- P-normalise: squares are taken of Q scaled by its largest modulus
+    okn = False
+    qmax_names = set()
+    for node in ast.walk(fn.node):
+        if isinstance(node, ast.Assign) and \
+                isinstance(node.targets[0], ast.Name) and \
+                isinstance(node.value, ast.Call) and \
+                (prog.dotted(node.value.func) or '').split('.')[-1] in (
+                    'max', 'amax') and \
+                any(isinstance(x, ast.Call) and
+                    (prog.dotted(x.func) or '').split('.')[-1] in ('abs',
+                                                                    'absolute')
+                    for x in ast.walk(node.value)):
+            qmax_names.add(node.targets[0].id)
+    for node in ast.walk(fn.node):
+        if isinstance(node, ast.Assign) and \
+                isinstance(node.targets[0], ast.Name) and \
+                node.targets[0].id == 'norms':
+            for x in ast.walk(node.value):
+                if isinstance(x, ast.BinOp) and isinstance(x.op, ast.Pow):
+                    base = x.left
+                    if isinstance(base, ast.BinOp) and \
+                            isinstance(base.op, ast.Div) and \
+                            isinstance(base.right, ast.Name) and \
+                            base.right.id in qmax_names:
+                        okn = True
+    rep.add('P-normalise', 'optima.optima_tt_beam', 'norms = sum((Q / '
+            'max|Q|)**2)', 'ok' if okn else 'violation',
+            '' if okn else 'the squared candidate norms are no longer taken '
+            'of Q scaled by its largest modulus: the squares under- / '
+            'overflow for representable tensors and all candidates tie',
+            line=fn.node.lineno, file=mod.path)
     # --- ledger
     for d in ds:
         for vi in (0, 1):
